@@ -129,6 +129,18 @@ func (r *Result) Violate(sig, what string, witness any) {
 	r.Violations[sig] = &Violation{Sig: sig, What: what, Witness: witness, Count: 1}
 }
 
+// SortedViolations returns the violations recorded so far, sorted by signature.
+func (r *Result) SortedViolations() []*Violation {
+	r.mu.Lock()
+	defer r.mu.Unlock()
+	var out []*Violation
+	for _, v := range r.Violations {
+		out = append(out, v)
+	}
+	sort.Slice(out, func(i, j int) bool { return out[i].Sig < out[j].Sig })
+	return out
+}
+
 // Note records a free-text note.
 func (r *Result) Note(s string) {
 	r.mu.Lock()
